@@ -211,3 +211,42 @@ Fixpoint cr_trace_eqb (a b : list cr_op) : bool :=
 (* content of path p after a crash at operation index k *)
 Definition cr_crash_at (m : cr_mode) (tr : list cr_op) (k : nat) (fs : cr_fsmap) (p : N) : option cr_bytes :=
   cr_file (cr_crash m (firstn k tr) fs) p.
+
+(* ---------- sessions: sequences of saves on one results file, any of which may be cut short ---------- *)
+(* [encode] / [decode] stand for json.dump / json.loads on whole dictionaries (CPython's codec is trusted, not
+   modelled); [policy] is how the runtime chunks and spills a payload.  Entries are those of Store.v. *)
+From ICG Require Import Store.
+
+Section CrSession.
+  Context {E : Type}.
+  Variable encode : list (st_str * E) -> cr_bytes.
+  Variable decode : cr_bytes -> option (list (st_str * E)).
+  Variable policy : cr_bytes -> list cr_op.
+  Variables (h p q : N).
+
+  (* the dictionary save_json starts from: {} when the file does not exist, json.loads(text) otherwise
+     (None: json.loads raises, the save dies before touching the file) *)
+  Definition cr_load (fs : cr_fsmap) : option (list (st_str * E)) :=
+    match cr_file fs p with
+    | None => Some []
+    | Some b => decode b
+    end.
+
+  Record cr_req := cr_mkreq { cr_name : st_str; cr_entry : E; cr_fault : option (nat * cr_mode) }.
+
+  Definition cr_save_session (sc : cr_scheme) (fs : cr_fsmap) (r : cr_req) : cr_fsmap :=
+    match cr_load fs with
+    | None => fs
+    | Some s =>
+      if st_mem (cr_name r) s then fs
+      else
+        let tr := cr_save_trace sc h p q (policy (encode (st_save s (cr_name r) (cr_entry r)))) in
+        match cr_fault r with
+        | None => cr_fs (cr_run (cr_init fs) tr)
+        | Some (k, m) => cr_crash m (firstn k tr) fs
+        end
+    end.
+
+  Definition cr_session (sc : cr_scheme) (fs : cr_fsmap) (reqs : list cr_req) : cr_fsmap :=
+    fold_left (cr_save_session sc) reqs fs.
+End CrSession.
